@@ -531,4 +531,211 @@ theorem internal_vertical_velocity_6_0_safe (m : Msg) (L : Long m) : T.internal_
   · exact internal_vertical_velocity_safe f_ v_ hb_
   · trivial
 
+
+theorem mcp_selected_altitude_safe (m : Msg) (L : Long m) : T.mcp_selected_altitude.safe m := by
+  unfold T.mcp_selected_altitude.safe; have := L.len; omega
+theorem fms_selected_altitude_safe (m : Msg) (L : Long m) : T.fms_selected_altitude.safe m := by
+  unfold T.fms_selected_altitude.safe; have := L.len; omega
+theorem target_altitude_source_safe (m : Msg) (L : Long m) : T.target_altitude_source.safe m := by
+  unfold T.target_altitude_source.safe; have := L.len; omega
+
+theorem barometric_pressure_setting_safe (m : Msg) (L : Long m) : T.barometric_pressure_setting.safe m := by
+  unfold T.barometric_pressure_setting.safe
+  have hl := L.len
+  refine ⟨by omega, by omega, by omega, ?_, ?_, ?_⟩ <;> (frv_cases m L 59 60 71; intro _; omega)
+
+theorem temp_4_4_safe (sign value : Nat) (h : value < 1024) : T.temp_4_4.safe sign value := by
+  unfold T.temp_4_4.safe
+  simp only []
+  intro _
+  obtain ⟨e, h0, h1⟩ := i32_of_small value (by omega)
+  rw [e]; omega
+
+theorem temperature_4_4_safe (m : Msg) (L : Long m) : T.temperature_4_4.safe m := by
+  unfold T.temperature_4_4.safe
+  have hl := L.len
+  refine ⟨by omega, by omega, by omega, ?_⟩
+  frv_cases m L 56 57 66
+  exact temp_4_4_safe f_ v_ hb_
+
+theorem wind_speed_safe (m : Msg) (L : Long m) : T.wind_speed.safe m := by
+  unfold T.wind_speed.safe; have := L.len; omega
+
+theorem wind_direction_safe (m : Msg) (L : Long m) : T.wind_direction.safe m := by
+  unfold T.wind_direction.safe
+  have hl := L.len
+  refine ⟨by omega, by omega, by omega, ?_⟩
+  obtain ⟨f_, v_, hv_, hf_, hb_⟩ := frv m L 37 47 55 (by decide) (by decide) (by decide) (by decide) (by decide)
+  simp only [Nat.reducePow, Nat.reduceAdd, Nat.reduceSub] at hb_
+  rw [hv_]
+  rcases opt_filter_cases (fun (x : Nat × Nat) => match x with | (status, _) => status == 1) (f_, v_) with h | h <;> rw [h]
+  · show v_ * 180 < 2 ^ 32; omega
+  · trivial
+
+theorem wind_4_4_safe (m : Msg) (L : Long m) : T.wind_4_4.safe m := by
+  unfold T.wind_4_4.safe
+  refine ⟨wind_speed_safe m L, ?_⟩
+  split
+  · exact wind_direction_safe m L
+  · trivial
+
+theorem turbulence_4_4_safe (m : Msg) (L : Long m) : T.turbulence_4_4.safe m := by
+  unfold T.turbulence_4_4.safe; have := L.len; omega
+
+theorem humidity_4_4_safe (m : Msg) (L : Long m) : T.humidity_4_4.safe m := by
+  unfold T.humidity_4_4.safe
+  have hl := L.len
+  refine ⟨by omega, by omega, by omega, ?_⟩
+  obtain ⟨f_, v_, hv_, hf_, hb_⟩ := frv m L 82 83 88 (by decide) (by decide) (by decide) (by decide) (by decide)
+  simp only [Nat.reducePow, Nat.reduceAdd, Nat.reduceSub] at hb_
+  rw [hv_]
+  rcases opt_filter_cases (fun (x : Nat × Nat) => match x with | (status, _) => status == 1) (f_, v_) with h | h <;> rw [h]
+  · show v_ * 100 < 2 ^ 32; omega
+  · trivial
+
+theorem pressure_4_4_safe (m : Msg) (L : Long m) : T.pressure_4_4.safe m := by
+  unfold T.pressure_4_4.safe; have := L.len; omega
+
+theorem temperature_4_5_safe (m : Msg) (L : Long m) : T.temperature_4_5.safe m := by
+  unfold T.temperature_4_5.safe
+  have hl := L.len
+  refine ⟨by omega, by omega, by omega, by omega, ?_⟩
+  split <;> trivial
+
+theorem bds_safe (m : Msg) (L : Long m) : T.bds.safe m := by
+  unfold T.bds.safe
+  have hl := L.len
+  refine ⟨by omega, by omega, fun _ => by omega, fun _ _ => by omega, fun _ => by omega, fun _ => by omega, fun _ => ?_⟩
+  split <;> first | omega | trivial
+
+theorem goodflags_safe (m : Msg) (L : Long m) (f s e : Nat) (h1 : 1 ≤ f) (h2 : f ≤ 112) (h3 : 1 ≤ s) (h4 : s ≤ 112) (h5 : 1 ≤ e) (h6 : e ≤ 112) :
+    T.goodflags.safe m f s e := by
+  unfold T.goodflags.safe; have := L.len; omega
+
+
+/-- discharge a goal that is the safety of one decoder call on a 112-bit frame (or trivial, or a bound on the length) -/
+macro "msg_safe" L:term:max : tactic =>
+  `(tactic| first
+    | trivial
+    | (have hl__ := ($L).len; omega)
+    | exact goodflags_safe _ $L _ _ _ (by decide) (by decide) (by decide) (by decide) (by decide) (by decide)
+    | exact mcp_selected_altitude_safe _ $L | exact fms_selected_altitude_safe _ $L | exact barometric_pressure_setting_safe _ $L
+    | exact target_altitude_source_safe _ $L | exact roll_angle_5_0_safe _ $L | exact track_angle_5_0_safe _ $L
+    | exact track_angle_rate_5_0_safe _ $L | exact ground_speed_5_0_safe _ $L | exact true_airspeed_5_0_safe _ $L
+    | exact magnetic_heading_6_0_safe _ $L | exact indicated_airspeed_6_0_safe _ $L | exact mach_number_6_0_safe _ $L
+    | exact barometric_altitude_rate_6_0_safe _ $L | exact internal_vertical_velocity_6_0_safe _ $L
+    | exact temperature_4_4_safe _ $L | exact wind_4_4_safe _ $L | exact humidity_4_4_safe _ $L | exact turbulence_4_4_safe _ $L
+    | exact pressure_4_4_safe _ $L | exact temperature_4_5_safe _ $L | exact bds_safe _ $L | exact ais_safe _ $L
+    | exact threat_encounter_safe _ $L | exact cpr_safe _ $L | exact vertical_rate_safe _ $L | exact altitude_delta_safe _ $L
+    | exact altitude_gnss_safe _ $L | exact version_safe _ $L | exact surveillance_status_safe _ $L | exact ground_movement_safe _ $L
+    | exact ground_track_safe _ $L | exact heading_safe _ $L | exact me_code_safe _ $L)
+
+theorem is_bds_1_7_safe (m : Msg) (L : Long m) : T.is_bds_1_7.safe m := by
+  unfold T.is_bds_1_7.safe
+  have hl := L.len
+  refine ⟨by omega, by omega, by omega, ?_, ?_, ?_⟩ <;> (split <;> first | trivial | (intro _; first | omega | (split <;> trivial)))
+
+theorem is_bds_4_0_safe (m : Msg) (L : Long m) : T.is_bds_4_0.safe m := by
+  unfold T.is_bds_4_0.safe
+  refine ⟨?_, ?_, ?_, ?_, ?_, ?_, ?_, ?_, ?_, ?_⟩ <;> (intros; msg_safe L)
+
+theorem is_bds_5_0_safe (m : Msg) (L : Long m) : T.is_bds_5_0.safe m := by
+  unfold T.is_bds_5_0.safe
+  refine ⟨?_, ?_, ?_, ?_, ?_, ?_, ?_, ?_, ?_, ?_, ?_⟩ <;> (intros; msg_safe L)
+
+theorem is_bds_6_0_safe (m : Msg) (L : Long m) : T.is_bds_6_0.safe m := by
+  unfold T.is_bds_6_0.safe
+  refine ⟨?_, ?_, ?_, ?_, ?_, ?_, ?_, ?_, ?_, ?_, ?_⟩ <;> (intros; msg_safe L)
+
+theorem is_bds_4_4_safe (m : Msg) (L : Long m) : T.is_bds_4_4.safe m := by
+  unfold T.is_bds_4_4.safe
+  have hl := L.len
+  refine ⟨by omega, by omega, ?_, ?_, ?_, ?_, ?_, ?_, ?_, ?_, ?_, ?_, ?_⟩ <;> (split <;> first | trivial | (intros; msg_safe L))
+
+theorem is_bds_4_5_safe (m : Msg) (L : Long m) : T.is_bds_4_5.safe m := by
+  unfold T.is_bds_4_5.safe
+  refine ⟨?_, ?_, ?_, ?_, ?_, ?_, ?_, ?_, ?_, ?_⟩ <;> (intros; msg_safe L)
+
+
+/-! ### the records `DF::from_message` builds -/
+
+theorem get_capability_safe (m : Msg) (h : 2 ≤ m.length) : T.get_capability.safe m := by
+  unfold T.get_capability.safe; omega
+theorem get_message_type_safe (m : Msg) (L : Long m) : T.get_message_type.safe m := by
+  unfold T.get_message_type.safe; have := L.len; omega
+
+theorem srt_update_safe (self : T.Srt) (m : Msg) (h : 2 ≤ m.length) : T.Srt.update.safe self m := by
+  unfold T.Srt.update.safe
+  refine ⟨?_, ?_, ?_⟩ <;> (split <;> first | trivial | skip)
+  · intros; exact altitude_safe m _ (fun h17 => by omega)
+  · intros; exact squawk_safe m
+  · intros; exact get_capability_safe m h
+
+theorem srt_from_message_safe (m : Msg) (h : 2 ≤ m.length) : T.Srt.from_message.safe m :=
+  ⟨trivial, srt_update_safe _ m h⟩
+
+theorem ext_update_mt_5_18_safe (self : T.Ext) (m : Msg) (L : Long m) (df : Nat) : T.Ext.update_mt_5_18.safe self m df := by
+  unfold T.Ext.update_mt_5_18.safe
+  refine ⟨cpr_safe m L, fun _ => ground_movement_safe m L, fun _ => ground_track_safe m L, fun _ => altitude_safe m df (fun _ => L),
+    fun _ => surveillance_status_safe m L⟩
+
+theorem ext_update_mt_19_safe (te : TEnv) (self : T.Ext) (m : Msg) (L : Long m) : T.Ext.update_mt_19.safe te self m := by
+  unfold T.Ext.update_mt_19.safe
+  exact ⟨vertical_rate_safe m L, altitude_delta_safe m L, fun _ => heading_safe m L⟩
+
+theorem ext_update_mt_20_22_safe (self : T.Ext) (m : Msg) (L : Long m) : T.Ext.update_mt_20_22.safe self m := by
+  unfold T.Ext.update_mt_20_22.safe
+  exact ⟨altitude_gnss_safe m L, surveillance_status_safe m L⟩
+
+theorem ext_update_mt_31_safe (self : T.Ext) (m : Msg) (L : Long m) : T.Ext.update_mt_31.safe self m := version_safe m L
+
+theorem ext_update_safe (te : TEnv) (self : T.Ext) (m : Msg) (L : Long m) : T.Ext.update.safe te self m := by
+  unfold T.Ext.update.safe
+  have hl := L.len
+  refine ⟨?_, ?_, ?_, ?_, ?_, ?_, ?_⟩ <;> (split <;> first | trivial | skip)
+  · intros; exact get_capability_safe m (by omega)
+  · intros; exact get_message_type_safe m L
+  · intros; trivial
+  · intros; exact ext_update_mt_5_18_safe _ m L _
+  · intros; exact ext_update_mt_19_safe te _ m L
+  · intros; exact ext_update_mt_20_22_safe _ m L
+  · intros; exact ext_update_mt_31_safe _ m L
+
+theorem ext_from_message_safe (te : TEnv) (m : Msg) (L : Long m) : T.Ext.from_message.safe te m :=
+  ⟨trivial, ext_update_safe te _ m L⟩
+
+theorem mds_update_safe (self : T.Mds) (m : Msg) (L : Long m) : T.Mds.update.safe self m := by
+  unfold T.Mds.update.safe
+  refine ⟨?_, ?_, ?_, ?_, ?_, ?_, ?_, ?_, ?_⟩
+  · split
+    · intros; exact altitude_safe m _ (fun _ => L)
+    · trivial
+  all_goals (intros; first | msg_safe L | exact is_bds_1_7_safe m L | exact is_bds_4_0_safe m L | exact is_bds_5_0_safe m L
+                            | exact is_bds_6_0_safe m L | exact is_bds_4_4_safe m L | exact is_bds_4_5_safe m L)
+
+theorem mds_from_message_safe (m : Msg) (L : Long m) : T.Mds.from_message.safe m :=
+  ⟨trivial, mds_update_safe _ m L⟩
+
+/-- what the gate hands on: nibbles, and the length the format needs -/
+structure Accepted (m : Msg) : Prop where
+  nib : AllNib m
+  fits : ∃ df, getDownlinkFormat m = some df ∧ ((df ≤ 15 ∧ m.length = 14) ∨ (16 ≤ df ∧ m.length = 28))
+
+theorem Accepted.long {m : Msg} (A : Accepted m) {df : Nat} (h : getDownlinkFormat m = some df) (h16 : 16 ≤ df) : Long m := by
+  obtain ⟨d, hd, hf⟩ := A.fits
+  rw [h] at hd; injection hd with hd; subst hd
+  exact ⟨A.nib, by omega⟩
+
+theorem Accepted.len2 {m : Msg} (A : Accepted m) : 14 ≤ m.length ∧ m.length ≤ 28 := by
+  obtain ⟨d, _, hf⟩ := A.fits; omega
+
+theorem df_from_message_safe (te : TEnv) (m : Msg) (A : Accepted m) : T.DF.from_message.safe te m := by
+  unfold T.DF.from_message.safe
+  have hl := A.len2
+  refine ⟨?_, ?_, ?_, ?_⟩ <;> (split <;> first | trivial | skip)
+  · intro _; exact srt_from_message_safe m (by omega)
+  · rename_i v hv; intro h; exact ext_from_message_safe te m (A.long hv (by omega))
+  · rename_i v hv; intro h; exact mds_from_message_safe m (A.long hv (by omega))
+  · intro _; trivial
+
 end Sq.Safe
